@@ -10,7 +10,7 @@ ENGINE = 'detsched'
 TECHNIQUE = 'runtime monitoring under a deterministic cooperative scheduler with a virtual clock: happens-after checker (no dispatch and no timed posting after stop() returned), thread liveness, liveness of a second object and of the fabric, exact deadlock detection'
 RULE = ('an ActiveObject with 0-3 timed sources, 0-3 poster threads and a handler that may post, a SECOND active object and a plain queue '
         'subscribed to the fabric; stop() is called at a random virtual instant (in part of the runs while the current step of the object is arming a further timed source, in part while an application thread arms one (its arming call held at a random point by an injected virtual delay in most of these runs): such a source must be silent after stop() returned whenever its arming call had returned, or it had already posted, before stop() was called) (coinciding with a timer instant in half of the runs) from '
-        'the harness thread or from inside one of the object\'s own handlers. After stop() returned from outside: the object\'s thread has '
+        'the harness thread (in part of these runs AFTER the object\'s thread has already ended because the fabric had been stopped and restarted) or from inside one of the object\'s own handlers. After stop() returned from outside: the object\'s thread has '
         'ended, no dispatch-enter record and no posting by one of its timed sources carries a later step, a post to the second object is '
         'still dispatched and a fabric publication still reaches its subscriber; stop() inside a handler: no exception escapes, no further '
         'step runs after the current one, the thread has ended at quiescence; stop() never deadlocks. distinct_nontrivial = distinct '
@@ -18,7 +18,7 @@ RULE = ('an ActiveObject with 0-3 timed sources, 0-3 poster threads and a handle
 CASES = {'quick': 1200, 'thorough': 80000}
 BUDGET = {'quick': 150, 'thorough': 300}
 REQUIRE = {'runs': 500, 'stop_from_outside': 200, 'stop_from_handler': 150, 'runs_with_timed_sources': 300, 'stop_coincides_with_posting': 100, 'step_arms_timed_source_during_stop': 100,
-           'application_thread_arms_source_around_stop': 100, 'application_armed_source_started_before_stop': 40, 'arming_call_held_by_injected_delay': 60}
+           'application_thread_arms_source_around_stop': 100, 'application_armed_source_started_before_stop': 25, 'arming_call_held_by_injected_delay': 60, 'stop_called_after_the_thread_had_already_ended': 30}
 ASSUME = ['instantaneous-computation time model']
 ANNOUNCE_CASES = True
 
@@ -106,6 +106,20 @@ def run_case(ctx, n):
         ths[-1].start()
         ctx.count('application_thread_arms_source_around_stop')
       ds.STime.sleep(max(0.0, ts - s.clock))
+      dead_first = (not inside) and (not ext_arm) and (not arm_in_last_step) and rng.random() < 0.3
+      if dead_first:
+        # the object's thread has already ended for another reason when stop() is called: the fabric was stopped and the
+        # object woke up (it halts at its next wake-up); the fabric is restarted before anybody else wakes.  stop() must still
+        # cancel the object's timed sources
+        AO.ActiveFabric().stop()
+        ao.post_fifo(Event(signal='TICK_P', payload=-5))
+        for _ in range(200):
+          if not ao.thread.is_alive():
+            break
+          ds.STime.sleep(0.0)
+        AO.ActiveFabric().start()
+        if not ao.thread.is_alive():
+          ctx.count('stop_called_after_the_thread_had_already_ended')
       if inside:
         ao.post_fifo(Event(signal='DO', payload=0))
         ds.STime.sleep(0.0007)
